@@ -65,6 +65,11 @@ def run(ctx):
     # a child starts from the concatenation of its parents' stacks / memories, accepted exactly up to the VM limits
     from .. import access as A_
     A_.from_words_tables(ctx, "R4")
+    # the gas reported for a graph counts every executed node once (C07 R5)
+    if not getattr(ctx, "_src", None):
+        from . import C07 as C07_
+        from .C19 import _Only as _O7
+        C07_.run(_O7(ctx, "R5", "R3"))
     # which nodes wait for the second pass is decided by the byte scan for Post* effects: its exactness (C15 R2/R3) and the
     # checker's query (C03 R3) are part of the verdict
     from . import C15 as C15_, C03 as C03_
